@@ -1,9 +1,12 @@
 """C01 -- transformation chains give PySpark's sequential result.
 
-T1  translate/c01_facts.py  -> Gen/C01Facts.v   (enum, wrapper predicate, decorators, append/min flags)
-Prf coq/props/C01.v         -> cfg_ok / limit_ok instantiation + C01_partial (all op lists, all inputs)
-T2  exported sqlglot chain  == model chain up to the verified normal form nf   (per program, all data)
-T3  collect() rows on DuckDB == model rows == spec rows                          (per program x table)
+T1  translate/c01_facts.py  -> Gen/C01Facts.v   (enum, both wrapper predicates, decorators, append/min flags)
+Prf coq/props/C01.v         -> cfg_ok / limit_ok / deco_ok / deco_ok_y instantiation + C01_partial (core operations),
+                               C01_partial_wide (+ fillna/replace/toDF/dropna), C01_partial_all (+ agg/unpivot/dropDuplicates):
+                               all operation lists, all input frames, on decidable domains
+T2  exported sqlglot tree (export_stages below: SELECT / GROUP BY / UNION ALL / ROW_NUMBER stages)
+                            == model stages up to the verified normal form snf   (per program, all data)
+T3  collect() rows on DuckDB == model rows == spec rows; which executed cases lie in each theorem's domain   (per program x table)
 """
 from __future__ import annotations
 
@@ -16,7 +19,7 @@ from translate import c01_facts
 HEADER = """From SF Require Import Model.ChainStages Model.ChainCheckX.
 From Gen Require Import C01Facts.
 Open Scope string_scope.
-Definition gen_g : gcfg := mkGcfg wrap_needed_group init_wraps_group group_agg_kind.
+Definition gen_g : gcfg := mkGcfg wrap_needed_group init_wraps_group group_agg_kind order_flag_desc order_flag_nulls_first.
 Definition check := check_y gen_cfg gen_g (deco_of decorator_table).
 """
 
@@ -33,8 +36,9 @@ INT_COLS0 = {"a", "b"}
 class Gen:
     """Typed step/expression generator.  `cols` maps current column name -> 'int' | 'str' | 'bool'."""
 
-    def __init__(self, rnd):
+    def __init__(self, rnd, extended=False):
         self.r = rnd
+        self.extended = extended      # C01's own run: also the shapes added after other checks started to reuse this generator
 
     def int_e(self, cols, depth=2):
         ints = [c for c, t in cols.items() if t == "int"]
@@ -171,6 +175,11 @@ class Gen:
             ke = self.int_e(cols, 1)
             if rel.e_cols(ke):   # ORDER BY <constant> is positional in SQL; not generated
                 keys = [(ke, r.random() < 0.5, None)] + keys[:1]
+        if self.extended and all(e[0] == "col" and nf is None for e, _, nf in keys) and r.random() < 0.4:
+            # the same request through the `ascending` argument: orderBy('a', 'b', ascending=[True, False]) / ascending=False
+            ks = [(e[1], not d) for e, d, _ in keys]
+            same = len({a for _, a in ks}) == 1
+            return ("orderByFlags", ks, r.choice(["scalar", "list"]) if same else r.choice(["list", "int"]))
         return ("orderBy", keys)
 
 
@@ -213,6 +222,11 @@ def cols_after(step, cols):
     if k == "drop":
         new = {c: t for c, t in cols.items() if c not in step[1]}
         return new or None
+    if k == "orderByFlags":
+        names = [n for n, _ in step[1]]
+        if not names or len(set(names)) != len(names) or any(n not in cols for n in names):
+            return None
+        return dict(cols)
     if k == "toDF":
         if len(step[1]) != len(cols) or len(set(step[1])) != len(step[1]):
             return None
@@ -267,6 +281,8 @@ AGG_COQ = {"sum": "ASum", "count": "ACount", "min": "AMin", "max": "AMax", "coun
 def step_coq(step) -> str:
     k = step[0]
     sl = lambda xs: listlit([strlit(x) for x in xs])
+    if k == "orderByFlags":
+        return "(XOrderFlags " + listlit([f"({strlit(n)}, {boollit(a)})" for n, a in step[1]]) + ")"
     if k == "toDF":
         return f"(XToDF {sl(step[1])})"
     if k == "fillna":
@@ -320,11 +336,24 @@ def step_str(step) -> str:
         return "orderBy(" + ", ".join(
             f"{rel.e_str(e)} {'desc' if d else 'asc'}{'' if nf is None else (' nulls first' if nf else ' nulls last')}"
             for e, d, nf in step[1]) + ")"
+    if k == "orderByFlags":
+        return "orderBy(" + ", ".join(n for n, _ in step[1]) + ", ascending=" + repr(flags_arg(step)) + ")"
     if k == "withColumn":
         return f"withColumn({step[1]}, {rel.e_str(step[2])})"
     if k == "agg":
         return f"groupBy({step[1]}).agg({', '.join(f'{fn}({c}) as {o}' for fn, c, o in step[2])})"
     return f"{k}({', '.join(map(str, step[1:]))})"
+
+
+def flags_arg(step):
+    """the `ascending` argument of an orderByFlags step: one bool for all keys, a list of bools, or a list of 0/1"""
+    flags = [a for _, a in step[1]]
+    form = step[2] if len(step) > 2 else "list"
+    if form == "scalar" and len(set(flags)) == 1:
+        return flags[0]
+    if form == "int":
+        return [1 if a else 0 for a in flags]
+    return flags
 
 
 def apply_step(df, step, F):
@@ -351,6 +380,8 @@ def apply_step(df, step, F):
                 c = c.asc_nulls_first() if nf else c.asc_nulls_last()
             ks.append(c)
         return df.orderBy(*ks)
+    if k == "orderByFlags":
+        return df.orderBy(*[n for n, _ in step[1]], ascending=flags_arg(step))
     if k == "limit":
         return df.limit(step[1])
     if k == "distinct":
@@ -544,7 +575,7 @@ def has_or(e) -> bool:
     return isinstance(e, tuple) and ((e[0] == "bin" and e[1] == "Or") or any(has_or(x) for x in e[1:]))
 
 
-N_CORPUS = 16
+N_CORPUS = 9
 ORDER_WITNESS = None   # the corpus program that exhibits the known engine-reordering finding keeps sequence mode
 
 
@@ -561,6 +592,8 @@ def plan_mode(steps):
         if k == "orderBy":
             keycols = [e[1] for e, _, _ in st[1] if e[0] == "col"]
             total = set(keycols) >= set(cols)
+        elif k == "orderByFlags":
+            total = {n for n, _ in st[1]} >= set(cols)
         elif k in ("distinct", "unpivot", "agg"):
             total = False
         elif k == "where" and has_or(st[1]) and steps is not ORDER_WITNESS:
@@ -576,9 +609,11 @@ def plan_mode(steps):
     return ("seq" if total else "bag", None), out
 
 
-def make_programs(ctx):
+def make_programs(ctx, extended=False):
+    """extended=False: the programs other checks (C12, the PySpark recorder) have always received from this function;
+    extended=True (C01's own run): + corpus entries, menu shapes and generator variants added later"""
     rnd = random.Random(ctx.seed)
-    g = Gen(rnd)
+    g = Gen(rnd, extended)
     progs = []
     cols0 = {"a": "int", "b": "int", "s": "str"}
 
@@ -598,6 +633,10 @@ def make_programs(ctx):
         m.append(("orderBy", [(("col", c), False, None) for c in names]))
         m.append(("orderBy", [(("col", c), True, None) for c in reversed(names)]))
         m.append(("orderBy", [(("col", names[0]), True, True)]))
+        if extended:
+            # direction given through the `ascending` argument (bare names): every key descending / mixed flags
+            m.append(("orderByFlags", [(c, False) for c in names], "scalar"))
+            m.append(("orderByFlags", [(c, i % 2 == 1) for i, c in enumerate(reversed(names))], "list"))
         m.append(("limit", 2))
         m.append(("limit", 4))
         m.append(("distinct",))
@@ -658,6 +697,9 @@ def make_programs(ctx):
         [("fillna", {"a": 0}), ("where", ("bin", "Eq", ("col", "a"), ("lit", 0)))],
         [("replace", ["a"], [(1, 7)]), ("agg", ["a"], [("count_star", "*", "n")])],
         [("orderBy", [(("col", "a"), False, None), (("col", "b"), False, None), (("col", "s"), False, None)]), ("toDF", ["b", "a", "s"])],
+    ]
+    if extended:
+        corpus += [
         # dropna's helper column collides with an input column of the same name (known finding)
         [("rename", "a", "num_nulls"), ("dropna", "any", None, [])],
         # dropna(thresh=0) keeps every row in PySpark; sqlframe's guard raises (known finding)
@@ -676,7 +718,11 @@ def make_programs(ctx):
          ("orderBy", [(("col", "y"), True, False), (("col", "x"), False, True), (("col", "z"), False, None)]), ("limit", 3)],
         [("dropna", "all", 2, []), ("where", ("isnull", ("col", "s"))), ("fillna", {"s": "q"}), ("dropna", "all", None, ["a"]),
          ("dropna", "any", None, []), ("distinct",), ("toDF", ["num_nulls", "b", "c"]), ("rename", "num_nulls", "a")],
-    ]
+        # descending keys asked for through `ascending=`: NULLs of a descending key come last (Spark), total order
+        [("orderByFlags", [("a", False), ("b", True), ("s", False)], "list")],
+        [("orderByFlags", [("s", False), ("b", False), ("a", False)], "scalar"), ("select", [(("col", "a"), "a"), (("col", "s"), "s"), (("col", "b"), "b")])],
+        [("where", ("bin", "Gt", ("col", "b"), ("lit", 0))), ("orderByFlags", [("a", False), ("s", True), ("b", False)], "int"), ("limit", 4)],
+        ]
     global ORDER_WITNESS, N_CORPUS
     ORDER_WITNESS = ORDER_WITNESS_PROGRAM
     N_CORPUS = len(corpus)
@@ -693,7 +739,7 @@ ORDER_WITNESS_PROGRAM = [("orderBy", [(("col", "s"), False, False), (("col", "a"
 
 def signature(steps, flags):
     """shape predicate of a deviation (impl vs spec), used to match known findings"""
-    kinds = [s[0] for s in steps]
+    kinds = ["orderBy" if s[0] == "orderByFlags" else s[0] for s in steps]     # the same method, other argument form
     cols = {"a": "int", "b": "int", "s": "str"}
     for st in steps:
         if st[0] == "dropna" and "num_nulls" in cols:
@@ -749,7 +795,7 @@ def run(ctx: core.Ctx):
         session._conn.execute("PRAGMA threads=1")
     except Exception:
         pass
-    progs, n_exh = make_programs(ctx)
+    progs, n_exh = make_programs(ctx, extended=True)
     items, metas = [], []
     hist_len, hist_kind, hist_mode, n_raise = {}, {}, {}, 0
     seen = set()
@@ -880,7 +926,7 @@ def run(ctx: core.Ctx):
     n_exportable = sum(1 for m in metas if m["exported"])
     ctx.coverage.update({
         "evaluations": len(items), "distinct_nontrivial": n_nontriv,
-        "rule": "case = (program, table); programs: every ordered pair (thorough: triple) of 14 operation shapes + random "
+        "rule": "case = (program, table); programs: a corpus of past failures and in-domain witnesses + every ordered pair (thorough: triple) of 23 operation shapes + random "
                 "programs (len<=6 quick, <=10 thorough) from a typed generator; tables incl. empty, NULLs, duplicates, ties; "
                 "non-trivial = non-empty table and >= 2 operations; distinct by (program text, table)",
         "programs": len(progs), "bounded_exhaustive_programs": n_exh,
@@ -894,6 +940,10 @@ def run(ctx: core.Ctx):
     })
     ctx.assumptions += [
         "Sql.Block.eval_block is my definition of DuckDB's SELECT evaluation on the emitted fragment (validated by T3 only)",
+        "ChainStages.eval_group / eval_union / eval_window are my definitions of DuckDB's GROUP BY with aggregates, UNION ALL of "
+        "projections of one CTE and ROW_NUMBER() OVER (PARTITION BY k ORDER BY k) (validated by T3 only); they fix one representative "
+        "of what the engine may return (group order, branch order, the row numbered 1): results after these operations are compared "
+        "as multisets / as a valid dropDuplicates (C01_unpivot_stage, C01_dropDuplicates_any_pick state what is independent of the choice)",
         "Spec (Chain.spec_step) is my definition of PySpark's meaning, validated against PySpark 3.5.9 recordings (oracle/)",
         "DuckDB keeps the order of an ordered CTE through outer filter/projection/LIMIT (threads=1, small tables)",
     ]
@@ -910,6 +960,8 @@ def _fix_step(st):
         return (k, [(e, n) for e, n in st[1]])
     if k == "orderBy":
         return (k, [tuple(x) for x in st[1]])
+    if k == "orderByFlags":
+        return (k, [tuple(x) for x in st[1]], st[2])
     if k in ("drop", "toDF", "dropDup"):
         return (k, list(st[1]))
     if k == "replace":
